@@ -649,20 +649,58 @@ func cmpIntro(ref, eng any, path string) []introDiff {
 			return other(fmt.Sprintf("a list of %d items", len(r)))
 		}
 		var out []introDiff
-		used := make([]bool, len(l))
-		var unmatched []any
-		for _, it := range r {
-			found := false
+		// maximum bipartite matching between reference items and engine items that compare
+		// equal (the tolerances make "equal" non-transitive, so greedy pairing is not enough)
+		compat := make([][]int, len(r))
+		for i, it := range r {
+			rn, rNamed := "", false
+			if rm, ok := it.(map[string]any); ok {
+				rn, rNamed = rm["name"].(string)
+			}
 			for j, cand := range l {
-				if used[j] {
-					continue
+				if rNamed {
+					if cm, ok := cand.(map[string]any); ok {
+						if cn, ok := cm["name"].(string); ok && cn != rn {
+							continue
+						}
+					}
 				}
 				if len(cmpIntro(it, cand, path)) == 0 {
-					used[j], found = true, true
-					break
+					compat[i] = append(compat[i], j)
 				}
 			}
-			if !found {
+		}
+		matchOfEng := make([]int, len(l))
+		for j := range matchOfEng {
+			matchOfEng[j] = -1
+		}
+		var try func(i int, seen []bool) bool
+		try = func(i int, seen []bool) bool {
+			for _, j := range compat[i] {
+				if seen[j] {
+					continue
+				}
+				seen[j] = true
+				if matchOfEng[j] < 0 || try(matchOfEng[j], seen) {
+					matchOfEng[j] = i
+					return true
+				}
+			}
+			return false
+		}
+		for i := range r {
+			try(i, make([]bool, len(l)))
+		}
+		used := make([]bool, len(l))
+		matchedRef := make([]bool, len(r))
+		for j, i := range matchOfEng {
+			if i >= 0 {
+				used[j], matchedRef[i] = true, true
+			}
+		}
+		var unmatched []any
+		for i, it := range r {
+			if !matchedRef[i] {
 				unmatched = append(unmatched, it)
 			}
 		}
